@@ -492,7 +492,7 @@ class ApplyMixin:
             # a clause that mentions the function it specifies (or deep nesting): just name the result, assume nothing more
             sig = [self.voc.Val] * len(env) + [z3.IntSort(), self.voc.Val]
             fsym = self.voc.fn("res_" + c.key.split("::")[-1].replace(".", "_") + f"_{len(env)}", *sig)
-            ep = z3.IntVal(0) if (c.assumed and not c.opts.get("reads_heap")) else self.heap_epoch(st)
+            ep = z3.IntVal(0) if ((c.assumed and not c.opts.get("reads_heap")) or c.opts.get("deterministic")) else self.heap_epoch(st)
             return self.with_sort(fsym(*[self.box(a) for a in env.values()], ep), c.sorts.get("result", "any"))
         stack.append(c.key)
         try:
@@ -550,7 +550,13 @@ class ApplyMixin:
             st.heap[attr] = self.fresh(f"H_{attr}", z3.ArraySort(self.voc.Val, self.voc.Val))
         # result: a function of the arguments for pure callees (determinism), else fresh
         rsort = c.sorts.get("result", "any")
-        if not c.modifies and c.opts.get("function", True) and all(a.t is not None for a in env.values()):
+        if c.opts.get("deterministic") and all(a.t is not None for a in env.values()):
+            # declared assumption: the result is a function of the arguments alone (heap effects are idempotent bookkeeping)
+            self.used_assumptions.add(f"result of {c.key.split('::')[-1]} is a deterministic function of its arguments (declared `deterministic`; C14 audits it)")
+            sig = [self.voc.Val] * len(env) + [z3.IntSort(), self.voc.Val]
+            fsym = self.voc.fn("res_" + c.key.split("::")[-1].replace(".", "_") + f"_{len(env)}", *sig)
+            res_t = fsym(*[self.box(a) for a in env.values()], z3.IntVal(0))
+        elif not c.modifies and c.opts.get("function", True) and all(a.t is not None for a in env.values()):
             sig = [self.voc.Val] * len(env) + [z3.IntSort(), self.voc.Val]
             fsym = self.voc.fn("res_" + c.key.split("::")[-1].replace(".", "_") + f"_{len(env)}", *sig)
             # externals are functions of their arguments only; repository functions may read the heap
